@@ -214,7 +214,7 @@ func (in *Interp) computeAxioms() []*Term {
 	if len(in.injUFs) > 0 {
 		byName := map[string][]*Term{}
 		for _, t := range in.ts.tab {
-			if t.op == OApp && in.injUFs[t.s] {
+			if t.op == OApp && in.injUFs[t.s] && !in.altTerms[t] {
 				byName[t.s] = append(byName[t.s], t)
 			}
 		}
@@ -252,6 +252,19 @@ func (in *Interp) computeAxioms() []*Term {
 					ax = append(ax, in.ts.Implies(in.ts.Eq(apps[i], apps[j]), argsEq))
 				}
 			}
+		}
+	}
+	// lengths of opaque strings are not negative
+	{
+		var apps []*Term
+		for _, t := range in.ts.tab {
+			if t.op == OApp && t.s == "len!" && !in.altTerms[t] {
+				apps = append(apps, t)
+			}
+		}
+		sort.Slice(apps, func(i, j int) bool { return apps[i].id < apps[j].id })
+		for _, a := range apps {
+			ax = append(ax, in.ts.ILe(in.ts.Int(0), a))
 		}
 	}
 	// BLS shares bind their message: one share value cannot verify under the same key share for two different messages
